@@ -34,3 +34,10 @@ for pid in pids:
     if os.environ.get('SHOW'):
         for o in rep.obligations:
             if os.environ['SHOW'] in str(o.get('subject')): print('   OB', o['rule'], o['subject'], o['ok'], str(o.get('detail'))[:300])
+    if os.environ.get('EVAL'):
+        from model import new_interp, run_fn, sym_args
+        from sym import show
+        for ff_ in (f, f2):
+            I = new_interp(ff_); b_ = ff_.bodies[os.environ['EVAL']]
+            r = run_fn(I, b_['def'], sym_args(I, b_))
+            print('   EVAL', {k: (show(v) if isinstance(v, tuple) else repr(v))[:300] for k, v in getattr(r, 'fields', {}).items()}, I.tops[:2])
